@@ -52,11 +52,14 @@ structure Writer where
   synced : Nat := 0
   trace : List Sys := []
   cap : Nat := 8192
-  /-- fault plan: journal syscalls numbered from 1; from `failAt` on every call fails; the call
-      number `failAt` itself, if it is a write, first takes `shortK` bytes -/
+  /-- fault plan: journal syscalls numbered from 1; from `failAt` on every call fails (only that
+      call if `failOnce`); the call number `failAt` itself, if it is a write and `shortK` is set,
+      takes `shortK` bytes and succeeds (a short write) -/
   calls : Nat := 0
   failAt : Option Nat := none
   shortK : Option Nat := none
+  /-- a transient fault: only the call number `failAt` is affected -/
+  failOnce : Bool := false
   deriving Repr, DecidableEq
 
 inductive IoRes | ok | err
@@ -65,7 +68,7 @@ inductive IoRes | ok | err
 def Writer.failing (w : Writer) : Bool :=
   match w.failAt with
   | none => false
-  | some n => n ≤ w.calls + 1
+  | some n => if w.failOnce then n = w.calls + 1 else n ≤ w.calls + 1
 
 /-- one `write(2)` of `d`: returns how many bytes were taken, or failure -/
 def Writer.sysWrite (w : Writer) (d : Bytes) : Writer × Option Nat :=
